@@ -42,7 +42,11 @@ Pt(a) == [re |-> a.re, im |-> a.im]
 PolyCheck(c, r) ==
     LET poles == {Pt(q) : q \in SeqSet(c.poles)}
         roots == {Pt(q) : q \in SeqSet(c.roots)}
-        sols0 == {q \in roots : ~\E p \in poles : Near(p, q)}
+        \* (an unexpanded quotient mul(P, pow(Q, -1)) is combined factor by factor at construction: a factor of higher
+        \*  multiplicity in P than in Q stays a root of the constructed object, which is what solve is given)
+        mult(seq, q) == Cardinality({i \in 1..Len(seq) : Near(Pt(seq[i]), q)})
+        combined == c.f.k = "mul"
+        sols0 == {q \in roots : IF combined THEN mult(c.roots, q) > mult(c.poles, q) ELSE ~\E p \in poles : Near(p, q)}
         sols == IF c.dom = "R" THEN {q \in sols0 : IsRealA(q)} ELSE sols0
         mems == MembersOf(r.tree)
         cands == roots \cup poles \cup {Pt(m) : m \in {mm \in mems : mm.ok = 1}}
